@@ -35,6 +35,7 @@ def dispatch (line : String) : String :=
     else if op = "search" then opSearch args
     else if op = "judge" then opJudge args
     else if op = "deep" then "m.goonly=1"
+    else if op = "deepseq" then "m.goonly=1"
     else "bad-op"
 
 partial def loop (hin hout : IO.FS.Stream) : IO Unit := do
